@@ -369,6 +369,31 @@ pub fn gen(prop: &str, rng: &mut Rng, thorough: bool, out: &mut Sink) {
         if prop == "C18" && d % 2 == 1 {
             c18_spice(rng, &mut def);
         }
+        if prop == "C18" && d % 12 == 5 {
+            // outside `LoadableWF` (the hypothesis of `loaded_tokenizer_never_panics`) and outside the model: the
+            // constructor accepts a special token with an empty text, which then matches at every position. The real
+            // code is run at the excluded point, implementation only.
+            def.specials.push(SpecialToken { id: 7_000_000, bytes: Vec::new(), kind: SpecialTokenKind::Priority, ident: None, score: 9.0, extract: d % 24 == 5 });
+            out.count("defs_with_empty_special");
+            let mut lines = Vec::new();
+            if let Some(Ok(tok)) = guarded(|| Kitoken::from_definition(def.clone())) {
+                for _ in 0..ntexts {
+                    let text = text_for_wide(rng, &def, true, true);
+                    for s in [false, true] {
+                        let r = guarded(|| tok.encode(&text, s).map(|ids| tok.decode(&ids, s).map(|b| b.len())));
+                        let a = match r {
+                            Some(Ok(Ok(len))) => format!("OK {}", len),
+                            Some(Ok(Err(_))) => "ERR decode".into(),
+                            Some(Err(_)) => "ERR encode".into(),
+                            None => "PANIC".into(),
+                        };
+                        lines.push(format!("IMPLONLY 0 empty-special{} {} {} :: {}", d, s as u8, hex(text.as_bytes()), a));
+                    }
+                }
+            }
+            out.group(lines);
+            continue;
+        }
         let mut lines = Vec::new();
         let tk = load(slot, "generated", def, &mut lines);
         slot += 1;
